@@ -214,6 +214,14 @@ func (e *Engine) buildSpecialisations() {
 func staticFuncValue(v ssa.Value) *ssa.Function {
 	switch x := v.(type) {
 	case *ssa.Function:
+		// a method expression is wrapped in a thunk with the same parameters: use the method
+		if strings.HasSuffix(x.Name(), "$thunk") {
+			if obj, ok := x.Object().(*types.Func); ok && x.Prog != nil {
+				if m := x.Prog.FuncValue(obj); m != nil {
+					return m
+				}
+			}
+		}
 		return x
 	case *ssa.MakeClosure:
 		if len(x.Bindings) == 0 {
